@@ -18,6 +18,10 @@ package main
 import (
 	"encoding/base64"
 	"fmt"
+	"os"
+	"runtime"
+	"runtime/debug"
+	"strings"
 	"sync/atomic"
 	"time"
 
@@ -87,14 +91,30 @@ func main() {
 		fmt.Printf("note: phase %s done at %.1fs\n", name, time.Since(t0).Seconds())
 	}
 
+	// C04_PARTS=limits,live,sweep,roundtrip,fuzz restricts the run (development aid; default all)
+	want := func(part string) bool {
+		v := os.Getenv("C04_PARTS")
+		return v == "" || strings.Contains(","+v+",", ","+part+",")
+	}
+
 	// (iii) limits first: alone in the process, so that TotalAlloc deltas belong to the probe
-	runLimits(nil)
+	if want("limits") {
+		runLimits(nil)
+	}
 	phase("limits")
+
+	// the parsers under test allocate heavily (the base64 reader 1 KiB per source read): with the
+	// default pacing the collector runs thousands of times per second on a tiny live heap and the
+	// 16 workers mostly wait for it. A never-touched ballast makes a cycle start only after about
+	// 1 GiB of new allocations.
+	ballast := make([]byte, 1<<30)
+	defer runtime.KeepAlive(ballast)
+	debug.SetGCPercent(100)
 
 	// (v) live tunnels (network-bound; run before the CPU-bound phases so that no session
 	// competes with 16 busy parsers)
 	nRaw := run.Pick(36, 1700)   // raw sessions per tunnel kind, ~28 requests each
-	nClient := run.Pick(10, 300) // library-client sessions per tunnel kind
+	nClient := run.Pick(12, 300) // library-client sessions per tunnel kind
 	var jobs []liveJob
 	for i := 0; i < nRaw; i++ {
 		jobs = append(jobs, liveJob{"tunnel-http", caseID{Part: "live", Seed: seed, Role: "live/http", Idx: i}})
@@ -104,11 +124,16 @@ func main() {
 			jobs = append(jobs, liveJob{"client-tunnel-ws", caseID{Part: "live", Seed: seed, Role: "live/client-ws", Idx: i}})
 		}
 	}
-	runLive(jobs)
+	if want("live") {
+		runLive(jobs)
+	}
 	phase("live")
 
 	// (i)+(ii) exhaustive split sweep of short streams
 	nSweep := run.Pick(300, 6000)
+	if !want("sweep") {
+		nSweep = 0
+	}
 	run.Parallel(nSweep, func(_, i int) {
 		runSweep(caseID{Part: "sweep", Seed: seed, Role: "sweep", Idx: i})
 	}, func(i int, v any, stack string) {
@@ -119,7 +144,10 @@ func main() {
 	phase("sweep")
 
 	// (i)+(ii) sampled sequences
-	nSeq := run.Pick(20000, 1000000)
+	nSeq := run.Pick(20000, 500000)
+	if !want("roundtrip") {
+		nSeq = 0
+	}
 	const batch = 50
 	run.Parallel(nSeq/batch, func(_, b int) {
 		for k := 0; k < batch; k++ {
@@ -133,6 +161,9 @@ func main() {
 
 	// (iv) totality
 	nFuzz := run.Pick(400000, 12000000)
+	if !want("fuzz") {
+		nFuzz = 0
+	}
 	const shards = 256
 	corpus := loadCorpus()
 	run.Count("repository-corpus-inputs", int64(len(corpus)))
@@ -144,7 +175,7 @@ func main() {
 
 	phase("fuzz")
 
-	if run.Get("tunnel-requests:tunnel-http") == 0 || run.Get("tunnel-requests:tunnel-ws") == 0 {
+	if want("live") && (run.Get("tunnel-requests:tunnel-http") == 0 || run.Get("tunnel-requests:tunnel-ws") == 0) {
 		run.Inconclusive("no-tunnel-request-observed")
 	}
 	run.Assume("canonical form: header keys in the casing base.Header normalises to, values without leading spaces and without CR / LF / NUL, URL a fixed point of ParseURL(x).String() without user-info, Content-Length only as implied by the body, methods = the ten methods conn.Conn.Read dispatches on")
